@@ -149,4 +149,13 @@ def fmax (a b : F64) : F64 :=
 def fmin (a b : F64) : F64 :=
   if a.isNaN || b.isNaN then .nan else if F64.lt b a then b else a
 
+/-- `math.Ceil` -/
+def fceil (x : F64) : F64 := F64.neg (F64.floor (F64.neg x))
+
+/-- the order `sort.Float64s` sorts by: `x < y || (isNaN(x) && !isNaN(y))` (NaNs first) -/
+def float64Less (x y : F64) : Bool := F64.lt x y || (x.isNaN && !y.isNaN)
+/-- `sort.Float64s(xs)`: ascending; the result is specified only up to the order of equal elements, which
+    for floats (sign of zero not modelled) are indistinguishable, so a stable merge sort is one valid reading -/
+def sortFloat64s (xs : List F64) : List F64 := xs.mergeSort (fun a b => !float64Less b a)
+
 end DDS.GoSem
